@@ -16,7 +16,7 @@ LEVEL = "exploration"
 ENGINE = "histsim"
 RULE = (
     "case = Chooser-generated history of 3-7 submissions into one cache root over a pool of identities: python task "
-    "that raises (always / on its first attempt only), shell command exiting non-zero (always / first attempt only), "
+    "that raises (always / on its first attempt only), shell command exiting non-zero or killed by a signal (always / first attempt only), "
     "python task returning a dict that lacks a declared output, workflow with a failing middle node, and succeeding "
     "variants; worker per submission: sequential debug worker or simulated process pool (seeded schedule).  Reference "
     "model: store of identities with a complete successful result + value model + per-attempt failure plan.  "
@@ -30,7 +30,7 @@ ASSUMPTIONS = [
     "a python function returning None for declared outputs is 'provides None' (pinned by the suite's test_result_none_2), not a violation",
     "the failure text that must be recorded is the exception message of the body / the failing command line",
 ]
-PROBES = ["resubmitted_after_failure", "transient_then_success", "shell_nonzero", "partial_dict", "workflow_failure", "cf_submission"]
+PROBES = ["shell_signal", "resubmitted_after_failure", "transient_then_success", "shell_nonzero", "partial_dict", "workflow_failure", "cf_submission"]
 N = {"quick": 300, "thorough": 6000}
 
 
@@ -47,6 +47,8 @@ case "$3" in
   ok) echo "out-$2"; exit 0;;
   fail) echo "boom-$2" >&2; exit 3;;
   once) if [ "$n" = 1 ]; then echo "boom-$2" >&2; exit 4; fi; echo "out-$2"; exit 0;;
+  sig) echo "partial-$2"; kill -9 $$; sleep 5;;
+  sigonce) if [ "$n" = 1 ]; then echo "partial-$2"; kill -15 $$; sleep 5; fi; echo "out-$2"; exit 0;;
 esac
 """
 
@@ -77,6 +79,9 @@ def run_case(case, ch, workdir):
     pool["sh-ok"] = (lambda: Cnt(adir=shcount, tag="shok", mode="ok"), "never", {"stdout": "out-shok\n", "return_code": 0}, None)
     pool["sh-fail"] = (lambda: Cnt(adir=shcount, tag="shfail", mode="fail"), "always", None, "cnt.sh")
     pool["sh-once"] = (lambda: Cnt(adir=shcount, tag="shonce", mode="once"), "once", {"stdout": "out-shonce\n", "return_code": 0}, "cnt.sh")
+    # the command's process is killed by a signal (negative return code in subprocess terms)
+    pool["sh-sig"] = (lambda: Cnt(adir=shcount, tag="shsig", mode="sig"), "always", None, "cnt.sh")
+    pool["sh-sigonce"] = (lambda: Cnt(adir=shcount, tag="shsigonce", mode="sigonce"), "once", {"stdout": "out-shsigonce\n", "return_code": 0}, "cnt.sh")
     pool["partial"] = (lambda: workload.PartialDict(x=3), "always", None, None)
     pool["partial-full"] = (lambda: workload.PartialDict(x=3, full=True), "never", {"p": 3, "q": 6}, None)
     pool["wf-fail"] = (lambda: workload.WfPlanned(x=1, tag="always"), "always", None, "Planned")
@@ -115,7 +120,7 @@ def run_case(case, ch, workdir):
                 res["probes"]["cf_submission"] = res["probes"].get("cf_submission", 0) + 1
             # observed executions of the identity's own body
             if name.startswith("sh-"):
-                tag = {"sh-ok": "shok", "sh-fail": "shfail", "sh-once": "shonce"}[name]
+                tag = name.replace("-", "")
                 n_now = len([f for f in os.listdir(shcount) if f.startswith(tag + ".")])
             else:
                 key = {"partial": workload._key("PartialDict", 3, False), "partial-full": workload._key("PartialDict", 3, True)}.get(name)
@@ -143,7 +148,7 @@ def run_case(case, ch, workdir):
                 res["probes"]["resubmitted_after_failure"] = res["probes"].get("resubmitted_after_failure", 0) + 1
             if will_fail:
                 if name.startswith("sh-"):
-                    res["probes"]["shell_nonzero"] = 1
+                    res["probes"]["shell_signal" if "sig" in name else "shell_nonzero"] = 1
                 if name == "partial":
                     res["probes"]["partial_dict"] = 1
                 if name.startswith("wf-"):
